@@ -15,6 +15,10 @@ CLAIMED = {
  'C09': dict(units='merge, _Merger, sort_params, apply_params, mask, embed', text='exactness and raise-only-if-no-common-call for name-aligned pairs; identities (mask(sig,0), bare-outer embed); bucket consistency for the fold. ' + B),
  'C10': dict(units='_concile_meta (contract used as summary), merge, embed, mask, forwards, partial retrieval', text='optional-only-if-all, common default or None, agreed annotation, kind only restricted, positional order kept, outer before inner, outer defaults dropped only before a required inner positional, partial keywords become keyword-only with the bound value: postconditions over ghost stands_for / origin fields that travel with replace(). ' + B),
  'C11': dict(units='UpgradedAnnotation.upgrade, _PostponedAnnotation/_PreEvaluatedAnnotation.source_value (interpreted), UpgradedParameter._upgrade, replace, merge/embed/mask/forwards', text='source_value() of every upgraded annotation of a retrieved signature equals the object the annotation denotes in the defining function globals (eval modelled as the uninterpreted evalin(raw, f)); the upgraded annotation of every combined parameter denotes its annotation. ' + B),
+ 'C12': dict(units='_PokTranslator._prepare, _PokTranslator.__call__, _kwoargs_start, _posoargs_end, _autokwoargs (forged_signature of the wrapped plain function summarised by its contract: the def-signature)',
+             text='_prepare: ValueError exactly for the inadmissible selections, otherwise the advertised signature is the stated rewrite (selected parameters positional-only in place / keyword-only after *args, order, defaults, annotations kept) and kwopos is the invariant __call__ needs; __call__ (run after the real _prepare): with the CALL axiom on the wrapped function the call goes through exactly when the advertised signature accepts it and every parameter receives the value the advertised binding assigns it; start=/end=/exceptions= forms hand exactly the stated name set on and do not modify the collections passed in. NOT under contract: the decorator plumbing that constructs the translator (__new__/__init__, update_wrapper, partial) and bound-method access through OverrideableDataDesc.__get__. ' + B),
+ 'C20': dict(units='support.bind_callsig, sort_callsigs, make_up_callsigs (tier B); s, f, func_from_sig, read_sig, func_code, make_func (tier R only)',
+             text='bind_callsig raises TypeError exactly when CPython binding rejects the call (keyword NAMES symbolic) and returns the mapping the binding assigns, apart from the excluded positional-only-name-with-**kwargs case; sort_callsigs partitions accordingly keeping order; make_up_callsigs contains every prefix x subset exactly once. The string <-> code helpers are regex/exec code outside the generator: checked by a RUNTIME contract on the real functions over an enumerated universe (bounded stand-in, labelled tier R, never counted as proved). ' + B),
  'C14': dict(units='UpgradedParameter.__eq__/replace, UpgradedSignature.__eq__/replace/__init__, the two class objects (__hash__, inherited str/bind), plain retrieval',
              text='== against every kind of operand (itself, upgraded twin, plain inspect object with the same or with symbolic data, None, foreign object) returns True/False/NotImplemented without raising, is reflexive, equals the plain twin, implies equality of the inherited hash basis; the classes keep the inherited __hash__, __str__, bind, bind_partial; replace() keeps type, provenance and upgraded annotations unless overridden; __init__ stores exactly the inherited state. Parameter-level obligations are tier P (loop-free, all fields symbolic, all kinds); signature-level ones ' + B),
  'C15': dict(units='merge, embed, mask, forwards', text='only ValueError escapes (IncompatibleSignatures on role-consistent inputs), results are valid upgraded signatures with +depths - on every path, exceptional ones included. ' + B),
